@@ -7,12 +7,13 @@ sys.path[:0] = [str(ROOT), str(ROOT / '.pydeps')]
 props = [json.loads(l) for l in (ROOT / 'properties.jsonl').read_text().splitlines() if l.strip()]
 na_file = ROOT / 'tools' / 'not_applicable.json'
 na = json.loads(na_file.read_text()) if na_file.exists() else {}
+claimed = set(json.loads((ROOT / 'tools' / 'claimed.json').read_text()))  # reviewed + passing checks only
 checks, not_app = [], []
 for p in props:
     pid = p['id']
     drv = ROOT / 'harness' / 'drivers' / f'{pid.lower()}.py'
     meta = None
-    if drv.exists() and pid not in na:
+    if drv.exists() and pid not in na and pid in claimed:
         mod = importlib.import_module(f'harness.drivers.{pid.lower()}')
         meta = getattr(mod, 'META', None)
     if meta is None:
